@@ -260,7 +260,7 @@ def deep_tree(s, rng):
         return
     host = rng.choice([b"deep", b"sorted"])
     base = b"s:http|h:com|h:" + host + b"|"
-    n = rng.choice([34, 36, 40])
+    n = rng.choice([34, 36, 40, 50, 66])
     if rng.random() < 0.5:
         pages = [base + b"p:page%02d|" % i for i in range(n)]                 # ascending: a right chain
     else:
@@ -606,6 +606,178 @@ long_sweep = perm_sweep(5, family=SIB_LONG, readd=True, tag="long_sibling_permut
 long_prefix_sweep = perm_sweep(4, family=SIB_LONG, readd=False, tag="long_sibling_prefix_permutations", prefixes=True)
 
 
+# ---- scale scenarios: quantities beyond the thresholds small histories never reach ---------------------
+SCALE_BASE = b"s:http|h:com|h:scale|"
+
+
+def _sc_chain(n):
+    def f(s, rng):
+        """n sibling pages inserted in ascending order (a degenerate sibling search tree of depth n), then every access path
+        on shallow and deep ones, resolution, potential prefix, pagination"""
+        if rng.random() < 0.5:
+            s.do(2, [SCALE_BASE, 0])
+            s.do(11, [SCALE_BASE, 2])           # a path-1 rule: every sibling becomes a webentity of its own
+        pages = [SCALE_BASE + b"p:%05d|" % i for i in range(n)]
+        for i in range(0, n, 100):
+            s.do(3, [pages[i:i + 100], rng.randint(0, 1)])
+        probes = [pages[0], pages[min(48, n - 1)], pages[min(64, n - 1)], pages[min(65, n - 1)], pages[n - 1], pages[n - 1] + b"p:x|",
+                  pages[n // 2] + b"p:deep|p:never|", SCALE_BASE + b"p:zzzzz|"]
+        s.do(2, [pages[n - 1] + b"p:deep|", 1])
+        s.do(6, [[pages[n - 2] + b"p:deep|"]])                  # an existing longer webentity below a deep sibling
+        probes += [pages[n - 2] + b"p:deep|p:never|p:inserted|", pages[n - 2] + b"p:deep|"]
+        for l in probes:
+            for op in (20, 21, 22, 41, 47):
+                s.do(op, [l])
+        s.do(35, [])
+        s.do(38, [])
+        wes = s.webentities()
+        for w, ps in wes.items():
+            if SCALE_BASE in ps:
+                s.do(24, [w, ps], clean=True)
+                s.do(29, [w, ps], clean=True)
+                if n <= 200:
+                    s.paginate_pages(w, ps, 7, 0, True)
+                    s.paginate_pages(w, ps, 1, 0, True)
+                break
+    return f
+
+
+def _sc_deep(n):
+    def f(s, rng):
+        """a URL with n path stems (a child chain n deep): links between its two ends, every per-webentity link query"""
+        l, pages = SCALE_BASE, []
+        for i in range(n):
+            l = l + b"p:d%d|" % i
+            pages.append(l)
+        s.do(3, [pages[::7] + [pages[-1]], 1])
+        s.do(4, [[[SCALE_BASE, pages[-1]], [pages[-1], SCALE_BASE], [pages[-1], pages[n - 4]], [pages[n - 4], pages[-1]],
+                  [pages[-1], b"s:http|h:org|h:other|p:o|"], [b"s:http|h:org|h:other|p:o|", pages[-1]]]])
+        wes = s.webentities()
+        for w, ps in wes.items():
+            if SCALE_BASE in ps:
+                for fl in ((1, 1, 1), (0, 1, 0), (0, 0, 1), (1, 0, 0)):
+                    s.do(30, [w, ps] + list(fl), clean=True)
+                s.do(32, [1, w, ps], clean=True)
+                s.do(32, [0, w, ps], clean=True)
+                s.do(27, [w, ps, 3, None], clean=True)
+                s.paginate_links(w, ps, 1, 1, 1, True)
+                s.paginate_links(w, ps, 0, 1, 1, True)
+                s.paginate_pages(w, ps, 2, 0, True)
+                break
+        for sl in (0, 1):
+            s.do(34, [1, 1, sl])
+            s.do(34, [0, 0, sl])
+        for l2 in (pages[-1], pages[n - 4]):
+            s.do(33, [l2, 1, 1, 1]); s.do(20, [l2]); s.do(41, [l2]); s.do(47, [l2])
+    return f
+
+
+def _sc_links(n, repeated):
+    def f(s, rng):
+        """one page with n links in one request (n distinct-ish targets, or n times the same target)"""
+        hub = SCALE_BASE + b"p:hub|"
+        if repeated:
+            other = SCALE_BASE + b"p:b|"
+            s.do(4, [[[hub, other]] * n + [[hub, hub], [other, hub]]])
+            tg = [other]
+        else:
+            tg = [SCALE_BASE + b"p:t%04d|" % (i % (n // 3)) for i in range(n)]
+            s.do(4, [[[hub, t] for t in tg] + [[hub, hub]]])
+        for l in (hub, tg[0], tg[-1]):
+            s.do(33, [l, 1, 1, 1]); s.do(46, [l])
+        s.do(38, []); s.do(37, [1]); s.do(37, [0]); s.do(48, [])
+        wes = s.webentities()
+        for w, ps in wes.items():
+            s.do(32, [1, w, ps], clean=True); s.do(32, [0, w, ps], clean=True); s.do(30, [w, ps, 1, 1, 1], clean=True)
+            break
+        s.do(34, [1, 1, 0]); s.do(34, [1, 1, 1])
+        s.do(33, [hub, 1, 1, 1]); s.do(46, [hub])          # again: the queries above must not have changed anything
+    return f
+
+
+def _sc_many_pages(n):
+    def f(s, rng):
+        """one webentity with n pages (more nodes than any iterator walks before it yields), every page linked once, a few often"""
+        pages = [SCALE_BASE + b"p:%05d|" % ((i * 7919) % n) for i in range(n)]
+        for i in range(0, n, 100):
+            s.do(3, [pages[i:i + 100], rng.randint(0, 1)])
+        hub = SCALE_BASE + b"p:hub|"
+        links = [[hub, p] for p in pages] + [[pages[k], pages[n - 1 - j]] for j in range(12) for k in range(j + 1)]
+        s.do(4, [links])
+        wes = s.webentities()
+        for w, ps in wes.items():
+            if SCALE_BASE in ps:
+                for k in (1, 5, 25):
+                    s.do(27, [w, ps, k, None], clean=True)
+                s.do(25, [w, ps], clean=True)
+                s.do(32, [1, w, ps], clean=True)
+                break
+        s.do(38, [])
+        s.do(34, [1, 1, 0])
+    return f
+
+
+def _sc_churn(n):
+    def f(s, rng):
+        """n create / delete cycles on one prefix (ids grow, the files do not), then restarts and creations"""
+        if s.impl.backend != "f":
+            return
+        p = b"s:churn|"                       # a one-node trie: the ids soon exceed every size figure of the files
+        for _i in range(n):
+            a = s.do(6, [[p]])
+            if isinstance(a, list) and a and a[1]:
+                s.do(7, [a[1][0][0], [p]])
+        s.do(13, [0, []])
+        s.do(6, [[b"s:after|"]])
+        s.do(2, [b"s:http|h:org|h:x|p:a|", 0])
+        s.do(13, [0, []])
+        s.do(6, [[b"s:again|"]])
+    return f
+
+
+SCALE = {"chain70": _sc_chain(70), "chain1100": _sc_chain(1100), "deep70": _sc_deep(70), "links1100": _sc_links(1100, False),
+         "links4200same": _sc_links(4200, True), "pages2100": _sc_many_pages(2100), "churn520": _sc_churn(700)}
+
+
+def _scale_worker(job):
+    seed, cfg = job
+    import session as S
+    rng = random.Random(seed)
+    s = S.Session(rng, cfg.get("backend", "f"))
+    try:
+        if cfg.get("ro_check"):
+            s.ro_check = True
+        s.do(1, [0, []])
+        SCALE[cfg["name"]](s, rng)
+        mm = s.finish(bytes_facet=False)
+        res = {"seed": seed, "ncmds": len(s.cmds), "stats": {"scale_" + cfg["name"]: 1}, "mismatches": [],
+               "digest": hash(cfg["name"]) & 0xFFFFFFFF, "nontrivial": True, "ro_violations": getattr(s, "ro_violations", [])}
+        for m in mm:
+            j = m.to_json()
+            j["props"] = sorted(K.mismatch_props(m, s.cmds))
+            res["mismatches"].append(j)
+        if mm or res["ro_violations"]:
+            res["script"] = K.ser_cmds(s.cmds)
+            res["metas"], res["groups"] = s.meta, s.groups
+        return res
+    except Exception as e:
+        import traceback
+        return {"seed": seed, "error": "%s: %s" % (type(e).__name__, e), "trace": traceback.format_exc()[-600:],
+                "mismatches": [], "stats": {}, "ncmds": 0, "digest": 0, "nontrivial": False}
+    finally:
+        s.close()
+
+
+def scale_sweep(names):
+    def run(prop, tier, seed):
+        jobs = [(seed + i, {"name": n, "prop": prop, "backend": "f" if i % 2 == 0 or n.startswith("churn") else "m"})
+                for i, n in enumerate(names)]
+        results = pool_map(_scale_worker, jobs)
+        v, k = classify(prop, results, seed, allow_shrink=False)
+        return v, {"scale_scenarios": list(names)}
+    return run
+
+
 def both_sweeps(*fs):
     def run(prop, tier, seed):
         v, cov = [], {}
@@ -629,28 +801,36 @@ def reg(pid, theorems, focus, nq=480, nt=30000, nw=25, depth=1, mixkw=None, extr
     PROPS[pid] = dict({"theorems": theorems, "runner": hist_runner(cfgq, cfgt, nq, nt, RULE % nw, sweep)}, **more)
 
 
-reg("C01", ["C01_pages_perm", "C01_count_pages", "C01_reports"], K.FACET_OPS["C01"], weird=0.3, sweep=long_sweep, extra=[big_batch])
-reg("C02", ["C02_find_known", "C02_windup", "C02_stem_roundtrip"], K.FACET_OPS["C02"], sweep=both_sweeps(helper_sweep(["chunks", "lru"]), perm_sweep(5), long_sweep), weird=0.45, extra=[flag_churn])
-reg("C03", ["C03_out", "C03_in", "C03_count"], K.FACET_OPS["C03"], mixkw={"add_links": 30, "batch": 20}, extra=[big_batch])
+reg("C01", ["C01_pages_perm", "C01_count_pages", "C01_reports"], K.FACET_OPS["C01"], weird=0.3,
+    sweep=both_sweeps(long_sweep, scale_sweep(["chain70", "links1100"])), extra=[big_batch])
+reg("C02", ["C02_find_known", "C02_windup", "C02_stem_roundtrip"], K.FACET_OPS["C02"], sweep=both_sweeps(helper_sweep(["chunks", "lru"]), perm_sweep(5), long_sweep, scale_sweep(["chain70", "chain1100", "deep70"])),
+    weird=0.45, extra=[flag_churn])
+reg("C03", ["C03_out", "C03_in", "C03_count"], K.FACET_OPS["C03"], mixkw={"add_links": 30, "batch": 20}, extra=[big_batch],
+    sweep=scale_sweep(["links1100", "links4200same", "deep70"]))
 reg("C04", ["C04_resolve", "C04_prefmap"], K.FACET_OPS["C04"],
-    mixkw={"create_we": 16, "delete_we": 10, "add_prefix": 12, "remove_prefix": 10, "move_prefix": 8}, sweep=long_prefix_sweep)
+    mixkw={"create_we": 16, "delete_we": 10, "add_prefix": 12, "remove_prefix": 10, "move_prefix": 8},
+    sweep=both_sweeps(long_prefix_sweep, scale_sweep(["chain70", "chain1100", "deep70"])))
 reg("C05", ["C05_we_pages", "C05_partition", "C05_exactly_once"], K.FACET_OPS["C05"], mixkw={"create_we": 16, "add_prefix": 10},
-    sweep=perm_sweep(5), extra=[high_ids])
+    sweep=both_sweeps(perm_sweep(5), scale_sweep(["chain70", "pages2100"])), extra=[high_ids])
 reg("C06", ["C06_create", "C06_potential", "C06_rule_install"], K.FACET_OPS["C06"], mixkw={"add_rule": 14, "remove_rule": 4},
-    sweep=helper_sweep(["rule"]))
-reg("C07", ["C07_net"], K.FACET_OPS["C07"], depth=2, nq=320, mixkw={"add_links": 30, "batch": 20, "create_we": 14}, extra=[high_ids])
-reg("C08", ["C08_pagelinks"], K.FACET_OPS["C08"], mixkw={"add_links": 30, "batch": 20, "create_we": 14}, extra=[high_ids])
+    sweep=both_sweeps(helper_sweep(["rule"]), scale_sweep(["chain70", "chain70", "deep70"])))
+reg("C07", ["C07_net"], K.FACET_OPS["C07"], depth=2, nq=320, mixkw={"add_links": 30, "batch": 20, "create_we": 14}, extra=[high_ids],
+    sweep=scale_sweep(["deep70", "links1100"]))
+reg("C08", ["C08_pagelinks"], K.FACET_OPS["C08"], mixkw={"add_links": 30, "batch": 20, "create_we": 14}, extra=[high_ids],
+    sweep=scale_sweep(["deep70", "links1100", "links4200same"]))
 reg("C09", ["C09_token_roundtrip", "C09_sorted_pages", "C09_chunks", "C09_stable_chain"], K.FACET_OPS["C09"],
-    mixkw={"add_page": 50, "add_pages": 20, "create_we": 14}, sweep=both_sweeps(helper_sweep(["token"]), perm_sweep(6)),
+    mixkw={"add_page": 50, "add_pages": 20, "create_we": 14}, sweep=both_sweeps(helper_sweep(["token"]), perm_sweep(6), scale_sweep(["chain70", "deep70"])),
     extra=[deep_tree, multi_prefix, mutating_pagination, high_ids])
 reg("C10", ["C10_chunks", "C10_same_links"], K.FACET_OPS["C10"], mixkw={"add_links": 35, "batch": 20, "create_we": 14},
-    extra=[deep_tree, multi_prefix, high_ids])
-reg("C12", ["C12_fresh"], set(), mixkw={"create_we": 16, "delete_we": 10, "add_rule": 10, "reopen": 10}, extra=[many_ids, second_index])
+    extra=[deep_tree, multi_prefix, high_ids], sweep=scale_sweep(["deep70", "links1100"]))
+reg("C12", ["C12_fresh"], set(), mixkw={"create_we": 16, "delete_we": 10, "add_rule": 10, "reopen": 10}, extra=[many_ids, second_index],
+    sweep=scale_sweep(["churn520"]))
 reg("C13", ["C13_parents", "C13_children"], K.FACET_OPS["C13"], mixkw={"create_we": 18, "add_prefix": 12, "move_prefix": 8, "add_rule": 10},
-    extra=[high_ids])
-reg("C19", ["C19_trie_blocks", "C19_count_links", "C19_readd_no_growth"], K.FACET_OPS["C19"], sweep=both_sweeps(helper_sweep(["chunks"]), long_sweep), weird=0.45,
+    extra=[high_ids], sweep=scale_sweep(["chain70", "deep70"]))
+reg("C19", ["C19_trie_blocks", "C19_count_links", "C19_readd_no_growth"], K.FACET_OPS["C19"], sweep=both_sweeps(helper_sweep(["chunks"]), long_sweep, scale_sweep(["chain70", "links1100"])), weird=0.45,
     mixkw={"add_page": 45, "add_pages": 16})
-reg("C20", ["C20_topk"], K.FACET_OPS["C20"], mixkw={"add_links": 35, "batch": 20, "create_we": 14}, extra=[high_ids])
+reg("C20", ["C20_topk"], K.FACET_OPS["C20"], mixkw={"add_links": 35, "batch": 20, "create_we": 14}, extra=[high_ids],
+    sweep=scale_sweep(["pages2100", "deep70"]))
 
 
 # ---- C14: queries never modify the index (dynamic facet next to the call-graph theorem) -------------
@@ -709,6 +889,16 @@ def c14_runner(prop, tier, seed, replay):
     if replay and replay_jobs(replay):
         jobs = replay_jobs(replay)
     results = pool_map(_c14_worker, jobs)
+    # the same byte comparison around every read request of the scale scenarios (long link lists, deep trees, many pages)
+    sres = pool_map(_scale_worker, [(seed + i, {"name": n_, "prop": prop, "backend": "f", "ro_check": True})
+                                    for i, n_ in enumerate(["links4200same", "links1100", "deep70", "chain70", "pages2100"])])
+    for r in sres:
+        r.setdefault("queries", 0)
+        if r.get("ro_violations"):
+            r["script"] = r.get("script") or []
+        else:
+            r["ro_violations"] = []
+    results = results + sres
     violations = []
     for r in results:
         if r.get("error"):
@@ -866,6 +1056,19 @@ def _twin_worker(job):
                 if p0 not in [x[0] for x in rules0]:
                     rules0.append([p0, rng.choice([2, 2, 3, 1])])
         prim.do(1, [rng.choice([0, 1]), rules0])
+        if cfg.get("ids"):
+            # webentity ids driven to a byte boundary of the header field, then a restart right there
+            k = 0
+            while prim.tr.last < cfg["ids"] and k < 600:
+                k += 1
+                n_ = min(8, cfg["ids"] - prim.tr.last)
+                before = prim.tr.last
+                prim.do(3, [[b"s:http|h:com|h:id%d|p:x|" % (1000 * k + j) for j in range(n_)], 0])
+                if prim.tr.last == before:
+                    break
+            if mode == "reopen":
+                prim.do(13, [prim.tr.dflt, [[p_, k_] for p_, k_ in prim.tr.rules]])
+            prim.do(6, [[b"s:http|h:org|h:afterids|"]])
         mixw = dict(G.DEFAULT_MIX)
         if mode == "memory":
             mixw["reopen"] = 0
@@ -967,6 +1170,9 @@ def twin_runner(modes, rule, extra=None):
         for i in range(n):
             jobs.append((seed * 100003 + i, {"mode": modes[i % len(modes)], "nw": 28 if tier == "thorough" else 20,
                                              "focus": K.FACET_OPS[prop], "prop": prop}))
+        for j, ids in enumerate([255, 256, 257, 512]):
+            # (few kinds of queries: with several hundred webentities the specification side of the sweeps is slow)
+            jobs.append((seed * 100003 + n + j, {"mode": modes[j % len(modes)], "nw": 8, "focus": {20, 21, 38, 45}, "prop": prop, "ids": ids}))
         if replay and replay_jobs(replay):
             jobs = replay_jobs(replay)
         results = pool_map(_twin_worker, jobs)
